@@ -60,32 +60,91 @@ def gen_times(rng, quick):
     return ts, dt, kind
 
 
-def gen_case(rng, quick, kind):
-    """kind: 'trace' (any D, all options) | 'exact' (maximal bond dimension, dense comparison)"""
+METHODS = ["1site", "2site", "12site"]
+HFACS = [-2.0, -0.6, 0.4, 0.75, 1.6, 2.5]
+
+
+def gen_hfac(rng, ngroups):
+    """how each MPO of the generator gets its scalar prefactor (MpsMpoOBC.factor): untouched (factor 1, what generate_mpo
+    gives), multiplied by a real number (kept in `factor`, the sign goes to the first tensor), or canonised with
+    normalize=False (the Frobenius norm of the operator moves to `factor`); the operator stays Hermitian in all of them"""
+    mode = rng.choice(["none", "mul", "mul", "canon"])
+    out = []
+    for _ in range(ngroups):
+        if mode == "none":
+            out.append(["none", 1])
+        elif mode == "mul":
+            out.append(["mul", rng.choice(HFACS)])
+        else:
+            out.append(["canon", rng.choice(["first", "last"])] if rng.random() < 0.7 else ["mul", rng.choice(HFACS)])
+    return out
+
+
+def option_deck(rng, n):
+    """balanced covering of method x subtract_E x precompute: every combination appears floor(n/12) or ceil(n/12) times"""
+    combos = [{"method": m, "subtract_E": s, "precompute": p} for m in METHODS for s in (False, True) for p in (False, True)]
+    out = []
+    while len(out) < n:
+        rng.shuffle(combos)
+        out += combos
+    return out[:n]
+
+
+def gen_case(rng, quick, kind, st=None):
+    """kind: 'trace' (any D, all options) | 'exact' (maximal bond dimension, dense comparison)
+    st: optional stratum {"method", "subtract_E", "precompute", "conserve"} fixing the option combination (option_deck);
+    "conserve" selects the regime of the conservation clause: real time and, for 2-site updates, a truncation that cannot bind"""
+    st = st or {}
     family, sym = rng.choice(FAMILIES)
     N = rng.choice([2, 3, 4, 5] if quick else [2, 3, 4, 5, 6])
     if kind == "exact":
         N = rng.choice([2, 3, 4] if quick else [2, 3, 4, 5])
     cplx = rng.random() < 0.3
     times, dt, tk = gen_times(rng, quick)
-    method = rng.choice(["1site", "2site", "12site"])
-    u = rng.choice(["real", "real", "imag", "complex"])
+    method = st.get("method") or rng.choice(METHODS)
+    u = "real" if st.get("conserve") else rng.choice(["real", "real", "imag", "complex"])
     # D = 1 only with '1site': expmv is pathologically slow on 2-site problems of (nearly) product symmetric states (see notes)
     D = rng.choice([1, 2, 3, 4] if method == "1site" else [2, 3, 4]) if kind == "trace" else 2 ** N
+    nsplit = rng.choice([1, 1, 2])
+    terms = gen_terms(rng, family, sym, N, cplx=cplx, long_range=rng.random() < 0.4)
+    if kind != "trace":
+        opts_svd = {"D_total": 2 ** N, "tol": 1e-14}
+    elif st.get("conserve"):
+        opts_svd = {"D_total": max(D, 2 ** (N // 2)) * rng.choice([1, 2]), "tol": 1e-14}
+    else:
+        opts_svd = {"D_total": max(2, rng.choice([D, 2 * D, 4 * D])), "tol": rng.choice([1e-14, 1e-6])}
     case = {
         "kind": kind, "family": family, "sym": sym, "N": N,
-        "terms": gen_terms(rng, family, sym, N, cplx=cplx, long_range=rng.random() < 0.4),
-        "nsplit": rng.choice([1, 1, 2]),
+        "terms": terms, "nsplit": nsplit, "hfac": gen_hfac(rng, len(split_terms(terms, nsplit))),
         "n": rng.choice(admissible_charges(family, sym, N)),
         "D_total": D, "psi_seed": rng.randrange(1 << 30), "nsum": 1 if kind == "trace" else 3,
         "times": times, "dt": dt, "grid": tk, "method": method, "order": rng.choice(["2nd", "4th"]),
         "u": {"real": [0.0, 1.0], "imag": [1.0, 0.0], "complex": [0.6, 0.8]}[u], "u_kind": u,
-        "normalize": rng.random() < 0.6, "subtract_E": rng.random() < 0.3, "precompute": rng.random() < 0.4,
-        "opts_svd": {"D_total": max(2, rng.choice([D, 2 * D, 4 * D])) if kind == "trace" else 2 ** N, "tol": rng.choice([1e-14, 1e-6] if kind == "trace" else [1e-14])},
+        "normalize": rng.random() < 0.6,
+        "subtract_E": st["subtract_E"] if "subtract_E" in st else rng.random() < 0.3,
+        "precompute": st["precompute"] if "precompute" in st else rng.random() < 0.4,
+        "opts_svd": opts_svd,
         "callable_H": rng.random() < 0.35,
         "yield_initial": rng.random() < 0.2,
+        "stratum": "conserve" if st.get("conserve") else ("deck" if st else "free"),
     }
     return case
+
+
+def hfac_kind(case):
+    kinds = {m for m, _ in case.get("hfac") or [["none", 1]]}
+    return kinds.pop() if len(kinds) == 1 else "mixed"
+
+
+def apply_hfac(Hg, spec):
+    """MPO with the requested scalar prefactor; the represented operator is the old one times the returned number"""
+    mode, val = spec
+    if mode == "mul":
+        return val * Hg
+    if mode == "canon":
+        Hg = Hg.shallow_copy()
+        Hg.canonize_(to=val, normalize=False)
+    return Hg
 
 
 def u_of(case):
@@ -157,9 +216,10 @@ def run_tdvp(case, monitor=True, dt=None, order=None):
     ops = make_ops(case["family"], case["sym"])
     N = case["N"]
     Hs, I = [], None
-    for g in split_terms(case["terms"], case["nsplit"]):
+    hfac = case.get("hfac") or []
+    for i, g in enumerate(split_terms(case["terms"], case["nsplit"])):
         I, Hg = build_mpo(ops, N, g)
-        Hs.append(Hg)
+        Hs.append(apply_hfac(Hg, hfac[i]) if i < len(hfac) else Hg)
     Hstat = Hs[0] if len(Hs) == 1 else Hs
     dtype = "complex128"
     psi = random_state(ops, I, case["psi_seed"], case["n"], case["D_total"], dtype)
@@ -465,7 +525,8 @@ def order_case(ctx, rng, quick):
     case = {"kind": "order", "family": family, "sym": sym, "N": N,
             "terms_a": gen_terms(rng, family, sym, N, cplx=False), "terms_b": gen_terms(rng, family, sym, N, cplx=False),
             "w": rng.choice([2.0, 3.0, 4.0]), "psi_seed": rng.randrange(1 << 30), "n": rng.choice(admissible_charges(family, sym, N)),
-            "T": 0.5, "method": rng.choice(["1site", "2site", "12site"])}
+            "T": 0.5, "method": rng.choice(["1site", "2site", "12site"]),
+            "precompute": rng.random() < 0.5, "hfac": gen_hfac(rng, 1)}
     try:
         with base.time_limit(40 if ctx.quick else 120):
             res = run_order_case(case)
@@ -474,6 +535,7 @@ def order_case(ctx, rng, quick):
         return
     ctx.case(case)
     ctx.count("kind:order")
+    ctx.count(f"order_precompute:{case['precompute']}")
     if res.get("skip"):
         ctx.count("order_skipped_not_full")
         return
@@ -499,6 +561,7 @@ def run_order_case(case):
     N = case["N"]
     I, Ha = build_mpo(ops, N, case["terms_a"])
     _, Hb = build_mpo(ops, N, case["terms_b"])
+    Ha = apply_hfac(Ha, (case.get("hfac") or [["none", 1]])[0])   # f(t) * Hb below carries the prefactor |f(t)| != 1
     Had, Hbd = dense_mpo(Ha, ops), dense_mpo(Hb, ops)
     w = case["w"]
     f = lambda t: math.cos(w * t)
@@ -516,7 +579,8 @@ def run_order_case(case):
                 return {"skip": True}
             try:
                 for _ in mps.tdvp_(psi, lambda t: [Ha, f(t) * Hb], times=(0, T), dt=dt, u=1j, method=case["method"], order=order,
-                                   opts_expmv=dict(OPTS_EXPMV), opts_svd={"D_total": 2 ** N, "tol": 1e-14}):
+                                   opts_expmv=dict(OPTS_EXPMV), opts_svd={"D_total": 2 ** N, "tol": 1e-14},
+                                   precompute=case.get("precompute", False)):
                     pass
             except Exception as e:
                 out["err"] = f"tdvp_ raised with a time-dependent generator: {type(e).__name__}: {e}"
@@ -548,6 +612,18 @@ def run_case(ctx, case):
     for k in ("kind", "method", "order", "u_kind", "grid", "N", "precompute", "callable_H", "normalize", "subtract_E", "nsplit"):
         ctx.count(f"{k}:{case[k]}")
     ctx.count(f"sym:{case['family']}:{case['sym']}")
+    ctx.count(f"hfac:{hfac_kind(case)}")
+    ctx.count(f"stratum:{case.get('stratum', 'free')}")
+    two = case["method"] == "2site"
+    if case["method"] == "12site" and res["mon"] is not None:
+        two = any(ev[0] == "enl" and ev[1][2] for (_, _, ev) in res["mon"].log)
+        ctx.count("12site:enlarges_a_bond" if two else "12site:1site_updates_only")
+    if two:   # coverage of the option pairs that meet only inside the 2-site local problem
+        for k in ("subtract_E", "precompute"):
+            if case[k]:
+                ctx.count(f"2site_updates&{k}")
+        if case["precompute"] and hfac_kind(case) != "none":
+            ctx.count("2site_updates&precompute&hfac")
     check_traces(ctx, case, res)
     check_time_grid(ctx, case, res)
     oracles(ctx, case, res)
@@ -576,11 +652,15 @@ def noncanonical_note(ctx):
 
 def run(ctx):
     rng, quick = ctx.rng, ctx.quick
-    ctx.rule = ("random Hermitian MPOs as in C09 (single or sum, optionally wrapped in a callable), random canonical initial MPS of "
+    ctx.rule = ("random Hermitian MPOs as in C09 (single or sum, optionally wrapped in a callable; each MPO with prefactor 1, multiplied "
+                "by a real number or canonised with normalize=False so that MpsMpoOBC.factor != 1), random canonical initial MPS of "
                 "every admissible charge (norm 1 or 1.5), N=2..6 (quick 2..5), methods 1site/2site/12site, orders 2nd/4th, u real/"
                 "imaginary/complex, time grids dyadic or decimal with dt dividing or not dividing the intervals, 1-2 snapshots, "
-                "normalize/subtract_E/precompute/yield_initial flags; 'exact' cases at maximal bond dimension (sum of 3 random MPS), "
-                "'order' cases with a time-dependent generator. Non-trivial = every case (distinct by full input).")
+                "normalize/subtract_E/precompute/yield_initial flags; 'exact' cases at maximal bond dimension (sum of 3 random MPS) "
+                "with method x subtract_E x precompute dealt from a balanced deck, every second 'trace' case dealt from the same deck "
+                "inside the regime of the conservation clause (real time, truncation that cannot bind; '12site' starts below the "
+                "maximal bond dimension and enlarges bonds), 'order' cases with a time-dependent generator (precompute on/off, "
+                "prefactors). Non-trivial = every case (distinct by full input).")
     ctx.notes.append("interpretive decisions: (a) 'bond dimensions are maximal' = at every bond the bond space is the whole left or the "
                      "whole right space of the charge sector (in U(1) sectors with mixed sector-wise maxima 1site TDVP is not exact: "
                      "inherent O(dt^p) error, observed 9e-7 -> 3e-9 for dt=1/8 -> 1/32, 4th order, spinless fermions N=4 n=3); "
@@ -594,13 +674,17 @@ def run(ctx):
         ctx.extra["consts"] = c
     budget = 60 if quick else 600
     t0 = time.time()
-    plan = [("trace", 22 if quick else 250), ("exact", 12 if quick else 120)]
+    plan = [("trace", 22 if quick else 250), ("exact", 24 if quick else 200)]
     for kind, n in plan:
+        # 'exact': every case takes its option combination from a balanced deck; 'trace': every second case is free, the others
+        # are dealt from the deck inside the regime where the conservation clause applies
+        deck = option_deck(rng, n)
         for i in range(n):
             if time.time() - t0 > budget * (0.5 if kind == "trace" else 0.8):
                 ctx.count(f"{kind}_cases_cut_by_budget")
                 break
-            run_case(ctx, gen_case(rng, quick, kind))
+            st = deck[i] if kind == "exact" else (dict(deck[i], conserve=True) if i % 2 else None)
+            run_case(ctx, gen_case(rng, quick, kind, st))
     for i in range(3 if quick else 20):
         if time.time() - t0 > budget:
             ctx.count("order_cases_cut_by_budget")
@@ -624,10 +708,13 @@ def search(ctx, broken, budget_s):
         if i % 4 == 0:
             order_case(ctx, rng, True)
         else:
-            case = gen_case(rng, True, rng.choice(["trace", "exact", "exact"]))
+            kind = rng.choice(["trace", "exact", "exact"])
+            st = option_deck(rng, 1)[0]
+            if kind == "trace":
+                st = dict(st, conserve=True) if i % 3 == 0 else None
+            case = gen_case(rng, True, kind, st)
             if i % 3 == 0:
                 case["callable_H"] = False
-                case["u"], case["u_kind"] = [0.0, 1.0], "real"
             run_case(ctx, case)
     ctx.drv = drv
     ctx.notes.append(f"search: {time.time() - t0:.0f}s of additional random cases")
